@@ -787,6 +787,88 @@ def r07_11(ctx):
         ctx.ob("R07.11", "exponent-cap:no-i32-overflow", cf[0][0] * 10 + 9 < 2 ** 31 - 2 ** 24, fast.loc(cf[0][1]), "the accumulated exponent and its digit-count correction stay inside i32")
 
 
+def r07_12(ctx):
+    """the truncation flag handed to parse_float is not lost: where parse_number replaces the flag by the result of a
+    helper although a `true` recorded earlier (digits dropped from the 19-digit significand) can reach that point, the
+    helper's flag must not depend on the VALUES of the digits it drops (then it is `true` whenever it dropped any, as the
+    check_digit in front guarantees it does) - or the caller has to merge (`|=`) instead of overwrite"""
+    prog = ctx.prog()
+    f = prog.find("sonic_number::parse_number")
+    pf = [(b, t) for b, t in f.calls() if callee_is(t, "parse_float")]
+    if len(pf) != 1 or len(pf[0][1]["args"]) < 4 or op_local(pf[0][1]["args"][3]) is None:
+        ctx.ob("R07.12", "anchor", False, f.loc(), "parse_float(significant, exponent, negative, trunc, ..) call not found (fail closed)")
+        return
+    # the flag variable: the multi-definition local the argument is a copy of
+    fl = op_local(pf[0][1]["args"][3])
+    for _ in range(6):
+        d = f.single_def(fl)
+        if d and d[0] == "stmt" and d[3]["rv"]["k"] == "use" and op_local(d[3]["rv"]["op"]) is not None:
+            fl = op_local(d[3]["rv"]["op"])
+        else:
+            break
+    defs = f.defs.get(fl, [])
+    trues = [d[1] for d in defs if d[0] == "stmt" and d[3]["rv"]["k"] == "use" and op_int(d[3]["rv"]["op"]) == 1]
+    ctx.ob("R07.12", "flag:set-sites", len(trues) >= 1 and len(defs) >= 3, f.loc(), f"the truncation flag has {len(defs)} definitions, {len(trues)} of them `true`", nontrivial=False)
+    n = 0
+    for d in defs:
+        if d[0] != "stmt" or d[3]["rv"]["k"] == "use" and d[3]["rv"]["op"]["k"] == "const":
+            continue
+        b, st = d[1], d[3]
+        sl, leaves = backward_slice(f, [p[0] for p in rv_places(st["rv"])], through_calls=False)
+        leaves = [lf for lf in leaves if not (lf[0] == "call" and callee_is(lf[2], "branch"))] + \
+                 [x for lf in leaves if lf[0] == "call" and callee_is(lf[2], "branch") and op_local(lf[2]["args"][0]) is not None
+                  for x in backward_slice(f, [op_local(lf[2]["args"][0])], through_calls=False)[1]]
+        calls = [lf for lf in leaves if lf[0] == "call" and prog.fns.get(lf[2]["callee"]) is not None and prog.fns[lf[2]["callee"]].crate == "sonic_number"]
+        if not calls:
+            continue
+        n += 1
+        merged = fl in sl        # trunc = trunc | helper(..)
+        reaching = [tb for tb in trues if b in f.reachable_from(tb)]
+        for lf in calls:
+            g = prog.fns[lf[2]["callee"]]
+            # the flag of the helper: the local wrapped in its Ok(..)
+            dep = []
+            for gb, gi, gs in g.assigns():
+                rv = gs["rv"]
+                if rv["k"] == "agg" and rv.get("variant") == "Ok" and rv["f"] and op_local(rv["f"][0]) is not None:
+                    # a byte of the text read into the flag's value (`trunc |= data[i] != b'0'`); how MANY digits there are
+                    # (positions, counts returned by the digit scanners) is not a dependence on their values
+                    gsl, gleaves = backward_slice(g, [op_local(rv["f"][0])], through_calls=False)
+                    if any(x[0] == "place" and g.src(x[1][0]) == ("param", 1) and any(isinstance(e, list) and e[0] != "." for e in x[1][1]) for x in gleaves):
+                        dep.append(gs.get("ln"))
+            ok = merged or not reaching or not dep
+            ctx.ob("R07.12", f"overwrite@{short(g.id)}#{n}", ok, f.loc(st.get("ln")),
+                   ("the flag is merged with the helper's result" if merged else "no recorded truncation reaches this assignment" if not reaching else
+                    f"{g.name} reports `truncated` independently of the dropped digits' values, so the overwrite cannot clear a recorded truncation") if ok else
+                   f"the flag returned by {g.name} depends on the values of the digits it drops (line {dep[0]}), and parse_number overwrites with it a truncation recorded for digits dropped from the integer part: 10000000000000001025.0 is converted from its first 19 digits only")
+    ctx.floor("R07.12", "flag overwritten by a helper's result", n, 1)
+
+
+def r07_13(ctx):
+    """slow path: `truncated` (which makes the conversion round a tie up) is decided on the digit count WITHOUT the literal's
+    trailing zeros - in parse_decimal the removal `num_digits -= <count of trailing zeros>` dominates the
+    `num_digits > MAX_DIGITS` test that sets the flag; a literal padded with zeros beyond 768 digits is still exact"""
+    from .c11 import _store_arith
+    prog = ctx.prog()
+    f = prog.find("decimal::parse_decimal")
+    fld = lambda lhs: [e[2] for e in lhs[1] if isinstance(e, list) and e[0] == "."][-1:]
+    tr = [(b, s_) for b, i, s_ in f.assigns() if fld(s_["lhs"]) == ["truncated"] and s_["rv"]["k"] == "use" and op_int(s_["rv"]["op"]) == 1]
+    subs = []
+    for b, i, s_ in f.assigns():
+        if fld(s_["lhs"]) != ["num_digits"]:
+            continue
+        found, leaves = _store_arith(f, s_, "Sub")
+        is_nd = lambda lf: lf[0] == "place" and lf[1] and fld(lf[1]) == ["num_digits"]
+        if found and any(is_nd(lf) for lf in leaves) and any(lf[0] != "const" for lf in leaves if not is_nd(lf)):
+            subs.append(b)
+    ctx.floor("R07.13", "`truncated = true` in parse_decimal", len(tr), 1)
+    for k, (b, s_) in enumerate(tr, 1):
+        ok = any(f.dominates(sb, b) for sb in subs)
+        ctx.ob("R07.13", f"parse_decimal:truncated#{k}", ok, f.loc(s_.get("ln")),
+               "the digit count compared with MAX_DIGITS has the trailing zeros removed" if ok else
+               "the digit count compared with MAX_DIGITS still contains the literal's trailing zeros: a literal padded with zeros beyond 768 digits is marked truncated and an exact tie is rounded up instead of to even")
+
+
 def r07_s(ctx):
     """shifts, table indices and unsigned differences of the conversion stay in range (interval analysis, shared with C01):
     a wrapped shift or an out-of-range table index yields a wrong float in release builds"""
@@ -816,4 +898,4 @@ def r07_sx(ctx):
     ctx.violations = [o for o in ctx.obligations if not o["ok"]]
 
 
-RULES = [("R07.1", r07_1), ("R07.3", r07_3), ("R07.4", r07_4), ("R07.5", r07_5), ("R07.6", r07_6), ("R07.6b", r07_6b), ("R07.7", r07_7), ("R07.8", r07_8), ("R07.9", r07_9), ("R07.10", r07_10), ("R07.11", r07_11), ("R07.S", r07_s), ("R07.Sx", r07_sx)]
+RULES = [("R07.1", r07_1), ("R07.3", r07_3), ("R07.4", r07_4), ("R07.5", r07_5), ("R07.6", r07_6), ("R07.6b", r07_6b), ("R07.7", r07_7), ("R07.8", r07_8), ("R07.9", r07_9), ("R07.10", r07_10), ("R07.11", r07_11), ("R07.12", r07_12), ("R07.13", r07_13), ("R07.S", r07_s), ("R07.Sx", r07_sx)]
